@@ -548,7 +548,28 @@ func (w *World) pruneClass(s Step) string {
 }
 
 func (w *World) applyLVFO(s Step) *Violation {
+	var before uint64
+	if w.Sim != nil {
+		before = w.Sim.Digest()
+	}
 	err := w.Tree.LoadVersionForOverwriting(s.N)
+	for v := range w.Pins {
+		if v > s.N && w.M.Has(s.N) {
+			// a version that would be erased is held by an open export: the
+			// rollback must be refused and erase nothing; the handle has been
+			// moved to the target version by the load that precedes the deletion
+			w.P.Inc("rollback.refused-pinned")
+			if err == nil {
+				return w.viol("C09", "C09.step", "accepted", "lvfo-pinned", fmt.Sprintf("LoadVersionForOverwriting(%d) succeeded while an Exporter is open on version %d", s.N, v))
+			}
+			if w.Sim != nil && w.Sim.Digest() != before {
+				return w.viol("C09", "C09.step", "store-changed", "lvfo-pinned", fmt.Sprintf("refused LoadVersionForOverwriting(%d) changed the store", s.N))
+			}
+			w.M.Load(s.N)
+			w.T.Load(s.N)
+			return nil
+		}
+	}
 	if !w.M.Has(s.N) {
 		if err == nil {
 			return w.viol("C09", "C09.step", "accepted", "lvfo-missing", fmt.Sprintf("LoadVersionForOverwriting(%d) succeeded, retained %v", s.N, w.M.Versions()))
